@@ -1,7 +1,7 @@
 from . import COMMON_TB, NOTE
 
 PROP = {
-    "level": "exploration",
+    "level": "proof",
     "modules": [],
     "streams": [{"name": "immut"}],
     "rule": "immut: sequences of 2..40 operations (Render, RenderString, FRender on templates parsed once, ParseAndRender) "
@@ -14,14 +14,22 @@ PROP = {
             "(template, environment) rendered alone on a fresh engine with fresh bindings (a render whose result varies "
             "by itself is C02's matter and is counted, not reported). Non-trivial = a sequence with a successful render.",
     "trusted_base": COMMON_TB,
-    "assumptions": ["oracle only (no model yet): the Lean driver answers `unmodelled` for `immut` lines"],
+    "assumptions": [],
 }
 
 TEXT = {
-    "text": "Exploration of the real code: over generated histories of renders on one engine, the caller's bindings are "
-            "deep-equal before and after every render (including failing ones) and every render equals the same render "
-            "done alone on a fresh engine; a difference is reported with the sequence.",
-    "design_ref": "DESIGN.md 6 C03",
-    "note": NOTE + "No theorem is claimed for C03 yet (level exploration).",
-    "technique": "history-based testing of the implementation with deep snapshots and a fresh-engine reference",
+    "text": ('History machine over engine operations (render; ParseTemplateAndCache): render_preserves_engine (a render leaves '
+              'the only engine state, the cache, unchanged), history_independent (in any history of renders, succeeding or '
+              'failing, every render returns what it returns alone), rerender_same, vars_reset (assign/capture/loop variables and '
+              'cycle counters start from the bindings in every render). Tie: every `immut` case line (a history of renders over '
+              'several templates and bindings on one engine) is answered by the model and compared with the real engine op by op; '
+              "on the real code the caller's bindings are deep-snapshotted (addresses, lengths, spare capacity, contents) around "
+              'every render, and every render is compared with the same render on a fresh engine, confirmed by replaying the '
+              'history prefix from scratch.'),
+    "design_ref": 'DESIGN.md 6 C03',
+    "note": NOTE + ("Partial in one respect: the model's values are immutable, so in-place modification of a caller's Go slice/map "
+              'through aliasing cannot be expressed as a theorem; that clause is carried by the snapshot oracle on the real code '
+              "(and by C15's input-unmodified oracle)."),
+    "technique": ('Lean 4 proof (induction over operation histories) + model/implementation correspondence over generated histories + '
+              'deep-snapshot oracle on the implementation'),
 }
